@@ -2,6 +2,13 @@
 
 package main
 
-import "runtime"
+import (
+	"crypto/sha1"
+	"encoding/base64"
+	"runtime"
+)
 
 func runtimeStackImpl(buf []byte) int { return runtime.Stack(buf, false) }
+
+func sha1Sum(b []byte) []byte { s := sha1.Sum(b); return s[:] }
+func b64Std(b []byte) string  { return base64.StdEncoding.EncodeToString(b) }
